@@ -2,6 +2,7 @@
   C08 — tokenisation and literals are faithful to the text.
 -/
 import Nlmodel.Model.Printer
+import Nlmodel.Proofs.Lemmas.LexAscii
 namespace Nl
 namespace C08
 
@@ -27,6 +28,42 @@ theorem C08_unescape_escape (s : Text) : unescape (escape s) = s := by
               rw [unescape.eq_def]
               split <;> simp_all
             rw [hu, ih]
+
+/-- TOKENISATION IS FAITHFUL: for every list of well-formed tokens (identifiers that are not keywords,
+    digit strings, `digits.digits`, string bodies whose closing quote is the first unescaped one,
+    keywords, operators, punctuation) and EVERY choice of separators — nothing where the
+    maximal-munch rule allows it, blanks, tabs, newlines, CRLF, Unicode whitespace, line comments
+    (also containing quotes), before, between and after the tokens — tokenizing the rendered text gives
+    exactly that token list.  `cc` is any character classification satisfying `LR.CCWF` (the facts
+    the check compares with the running Rust `std`: letters/digits/whitespace/punctuation classes). -/
+theorem C08_lex_render (cc : CharClass) (h : LR.CCWF cc) (ts : List Token) (ks : List Nat) (hw : ∀ t ∈ ts, LR.WFTok cc t) :
+    lex cc (render ts ks) = ts :=
+  LR.lex_render h ts none ks hw
+
+/-- a string literal written as `"` + escape(s) + `"` is one token whose body is escape(s), for ANY
+    text s (quotes, backslashes, newlines, any Unicode) and whatever follows; with
+    `C08_unescape_escape` the literal therefore denotes exactly s -/
+theorem C08_string_literal_token (cc : CharClass) (h : LR.CCWF cc) (s r : Text) :
+    LR.tok cc ('"' :: escape s ++ '"' :: r) = some (.str (escape s), r) :=
+  LR.tok_str h (escape s) r (fun r' => LR.scanStr_escape s r')
+
+/-- the assumptions on the character classes are satisfiable: the ASCII classification meets them -/
+theorem C08_ascii_class_wf : LR.CCWF CharClass.ascii := LR.ascii_wf
+
+/-- non-vacuity: `stel x1 = "a\"b" // c` as tokens is well formed -/
+example : ∀ t ∈ [Token.kwDeclare, .ident ['x', '1'], .assign, .str (escape ['a', '"', 'b']), .slash, .int ['4', '2'], .lte, .float ['1', '.', '5']],
+    LR.WFTok CharClass.ascii t := by
+  intro t ht
+  simp only [List.mem_cons, List.not_mem_nil, or_false] at ht
+  rcases ht with rfl | rfl | rfl | rfl | rfl | rfl | rfl | rfl
+  · trivial
+  · exact ⟨⟨'x', ['1'], rfl, by decide, by decide⟩, by decide⟩
+  · trivial
+  · exact fun r => LR.scanStr_escape _ r
+  · trivial
+  · exact ⟨'4', ['2'], rfl, by decide, by decide⟩
+  · trivial
+  · exact ⟨'1', [], ['5'], rfl, by decide, by decide, by decide⟩
 
 end C08
 end Nl
